@@ -11,7 +11,7 @@ GEN = ["Handlers"]
 VO = ["Properties/C05.vo", "Extract/D_Client.vo", "Extract/D_Server.vo"]
 MODULE = "Properties.C05"
 THEOREMS = ["c05_store_partial", "c05_delete_partial", "c05_touch_partial", "c05_flush_partial", "c05_arith_partial", "c05_noreply_effect", "c05_reply_iff",
-            "c05_e2e_delete", "c05_e2e_touch", "c05_e2e_flush", "c05_e2e_arith", "c05_e2e_store", "c05_e2e_cas", "c05_e2e_set_many", "c05_e2e_delete_many"]
+            "c05_e2e_delete", "c05_e2e_touch", "c05_e2e_flush", "c05_e2e_arith", "c05_e2e_store", "c05_e2e_cas", "c05_e2e_set_many", "c05_e2e_delete_many", "c05_e2e_gat", "c05_e2e_gats", "c05_gat_retimes"]
 DRIVER = "D_Client"
 TECHNIQUE = ("Coq proof: a specification server (in-memory map with expiry and cas versions); for every state of it the client's "
              "reading of the reply line is the documented result of what the server did; end to end on the Client model (Hoare "
@@ -27,8 +27,9 @@ LEVEL_TEXT = ("c05_store/delete/touch/flush/arith_partial: for EVERY server stat
               "unread -- for every server state, key, value and argument, hence along every history of such calls; c05_e2e_cas: the "
               "same for cas (True / False / None as stored, changed, absent); c05_e2e_set_many, c05_e2e_delete_many: the server reads "
               "the batch as exactly the intended commands, executes them in order, the client reads one line per command and returns "
-              "[] / True. Retrievals end to end: C04. PARTIAL: gat/gats, calls that reconnect first and the Pooled/Hash stacks are "
-              "checked, not proved end to end.")
+              "[] / True; c05_e2e_gat/gats + c05_gat_retimes: the item comes back as for get/gets and the server re-times it. Retrievals "
+              "end to end: C04; calls that reconnect first: c01_ready_* at the exchange level. The Pooled/Hash stacks are related to "
+              "Client by C16 and exercised by the search.")
 LEVEL_NOTE = ("Trusted: Coq kernel; Spec/Server.v as the reading of protocol.txt (compared with harness/refserver.py on every run); "
               "the hand model's correspondence with base.py. No axioms.")
 TRUSTED = ["Coq 8.16.1 kernel; no axioms",
